@@ -20,7 +20,7 @@ def programs(t):
     # conversions into small static types (int, double, plain scaled_integer sources) and built-in operands
     for (r, o) in ([('NEA', 'SAT'), ('NEG', 'THR'), ('TIE', 'TRP'), ('NAT', 'SAT')] if not t else [(r, o) for r in R for o in O]):
         lines.append('prog_convert<SInt<4, %s, %s>, %s, %s>("static_integer<4,i8>");' % (r, o, r, o))
-        for (d, e) in ([(4, -2), (4, 1)] if not t else [(4, -2), (4, 1), (5, -5), (3, 0)]):
+        for (d, e) in ([(4, -2), (4, 1), (7, 0)] if not t else [(4, -2), (4, 1), (5, -5), (3, 0), (7, 0), (7, -3)]):
             lines.append('prog_convert<SNum<%d, %d, %s, %s>, %s, %s>("static_number<%d,%d,i8>");' % (d, e, r, o, r, o, d, e))
     # unsigned narrowest storage (results of - and unary - must still be exact: the intermediate types turn signed)
     for (r, o) in ([('NEA', 'SAT'), ('NEG', 'THR')] if not t else [('NEA', 'SAT'), ('NEG', 'THR'), ('TIE', 'TRP')]):
